@@ -33,8 +33,11 @@ pub const BIG_SIZES: [u32; 7] = [65_535, 65_536, 65_537, 70_001, 131_072, 131_07
 
 /// With probability `weight`, one sample of the movie (table or fragment run) gets a size from
 /// `BIG_SIZES`; everything else about the movie is unchanged.
+/// Also, with probability 0.08, the last top-level box (when it is an mdat) is written with size 0,
+/// i.e. "to the end of the file".
 pub fn with_big_sample<S: Strategy<Value = Movie>>(s: S, weight: f64) -> impl Strategy<Value = Movie> {
-    (s, prop::bool::weighted(weight), any::<u16>(), 0usize..BIG_SIZES.len()).prop_map(|(mut m, on, frac, cls)| {
+    (s, prop::bool::weighted(weight), any::<u16>(), 0usize..BIG_SIZES.len(), prop::bool::weighted(0.08)).prop_map(|(mut m, on, frac, cls, to_eof)| {
+        m.last_to_eof = to_eof;
         if on {
             let mut slots: Vec<(usize, usize, usize)> = Vec::new(); // (0, track, sample) | (1 + frag, traf, sample)
             for (ti, t) in m.tracks.iter().enumerate() {
@@ -258,6 +261,9 @@ pub fn movie_shell(tracks: Vec<Track>) -> Movie {
         emsg: None,
         xforms: vec![],
         large_moof: false,
+        last_to_eof: false,
+        hdlr_name: None,
+        moov_meta: None,
     }
 }
 
@@ -570,7 +576,7 @@ pub fn meta_strategy() -> impl Strategy<Value = (Meta, MetaExpect)> {
                 exp.poster = None;
                 exp.absent_reason = Some(if !mdir { "other handler" } else { "no ilst" });
             }
-            (Meta { handler, quicktime, items: if has_ilst { Some(items) } else { None }, hdlr_last, udta_extra, large_seed }, exp)
+            (Meta { handler, quicktime, items: if has_ilst { Some(items) } else { None }, hdlr_last, udta_extra, large_seed, hdlr_name: String::new() }, exp)
         })
 }
 
